@@ -147,6 +147,7 @@ func VF_C13_Api() {
 	other := types.NewOperation("round", []byte("another-request"), "state_other")
 	answered := types.NewOperation("round", vf.Bytes("pending.payload", 1), fsm.State(vf.Str("pending.type")))
 	nmsgs := 1 + vf.Choose("result.nmsgs", 2)
+	reanswer := true
 	run := func(tag string, crashAfter int) (pending map[string]bool, sent int, crashed bool, effects int, log []string) {
 		path := vfStatePath(tag)
 		vfCleanup(path)
@@ -196,7 +197,21 @@ func VF_C13_Api() {
 		for id := range ops {
 			pending[id] = true
 		}
-		return pending, len(board.sent), crashed, effects, log
+		sent = len(board.sent)
+		if pending[answered.ID] {
+			// the operation is offered again: the operator answers it again; that must work and retire it for good
+			// ("driven to the same outcome as without the crash, with no manual state reset")
+			sub2 := &dto.OperationDTO{ID: answered.ID, Type: string(answered.Type), Payload: append([]byte{}, answered.Payload...),
+				ResultMsgs: vfResultMsgs("result.msg", nmsgs), CreatedAt: answered.CreatedAt, DkgID: "round",
+				Event: fsm.Event("event_result")}
+			rerr := e2.node.ProcessOperation(sub2)
+			ops2, _ := e2.ops.GetOperations()
+			_, still := ops2[answered.ID]
+			reanswer = rerr == nil && !still
+		} else {
+			reanswer = true
+		}
+		return pending, sent, crashed, effects, log
 	}
 	_, _, _, effects, refLog := run("ref", 0)
 	k := vf.Choose("crash-after", effects+1) // 0 = the request returned; the process stops before anything else happens
@@ -214,6 +229,7 @@ func VF_C13_Api() {
 	}
 	vf.Assert("api:unanswered-op-survives@"+at, pending[other.ID])
 	vf.Assert("api:retired-implies-sent@"+at, pending[answered.ID] || sent == nmsgs)
+	vf.Assert("api:reoffered-op-can-be-answered@"+at, reanswer)
 	if k == 0 {
 		vf.Assert("api:answered-stays-retired@"+at, !pending[answered.ID] && sent == nmsgs)
 	}
